@@ -154,7 +154,7 @@ def layout_cases():
             "trailing_eol": st.booleans(),
         }
     )
-    return st.fixed_dictionaries({"files": st.lists(f, min_size=1, max_size=6, unique_by=lambda x: (x["name"], x["sub"])), "empty_dirs": st.lists(st.sampled_from(["e1", "one/e2"]), max_size=2, unique=True)})
+    return st.fixed_dictionaries({"files": st.lists(f, min_size=1, max_size=6, unique_by=lambda x: (x["name"], x["sub"])), "empty_dirs": st.lists(st.sampled_from(["e1", "one/e2"]), max_size=2, unique=True), "spelling": st.sampled_from(["abs", "abs", "abs/", "rel", "./rel", "rel/"])})
 
 
 def _scratch():
@@ -200,11 +200,21 @@ def check_layout(case) -> Outcome:
 
     o = Outcome()
     d = tempfile.mkdtemp(prefix="vf-c18-", dir=_scratch())
+    cwd = os.getcwd()
     try:
         write_layout(d, case)
         analyzers = get_analyzers()
-        reg = build_registry(d)
-        kw_only = get_keywords(d)
+        # how the caller spells the directory: absolute, or relative to the working directory (as in `-k ./mykeywords`)
+        spelling = case.get("spelling", "abs")
+        given = d
+        if "rel" in spelling:
+            os.chdir(os.path.dirname(d))
+            given = spelling.replace("rel", os.path.basename(d))
+            o.label("relative-directory")
+        elif spelling == "abs/":
+            given = d + "/"
+        reg = build_registry(given)
+        kw_only = get_keywords(given)
         an_ids = {id(f) for f in analyzers}
         searchers = [f for f in reg if id(f) not in an_ids]
         reg_analyzers = [f for f in reg if id(f) in an_ids]
@@ -237,6 +247,7 @@ def check_layout(case) -> Outcome:
         if len(set(names)) < len(names):
             o.label("same-name-in-two-directories")
     finally:
+        os.chdir(cwd)
         shutil.rmtree(d, ignore_errors=True)
     return o
 
